@@ -132,6 +132,8 @@ structure St where
   gpc : GPC
   gcan : Bool         -- pthread_cancel(thread_wdog) was called (deferred: acts when the watchdog sleeps)
   gjoin : Bool        -- pthread_join(thread_wdog) has returned
+  scan : Bool         -- pthread_cancel(thread_sig) was called.  Cancellation is deferred: the signals thread runs on
+                      --   and ends (`SAct.die`) at a later point of its own: at the latest in sigwait
 deriving Repr
 
 inductive DAct
@@ -145,6 +147,7 @@ deriving DecidableEq, Repr
 
 inductive SAct
   | sigwait (g : Sg) | time (v : Nat) | lockT | fwd (h : Nat) | unlockT | lock | unlock | stop | exit (code : Nat)
+  | die     -- the pending cancellation request takes effect
 deriving DecidableEq, Repr
 
 inductive EAct | deliver (g : Sg) | tick (v : Nat)
@@ -253,10 +256,13 @@ def dStep (s : St) : DAct → Option St
       | _ => none
   | .cancelS => match s.dpc with
       | .finishing =>
-          if s.spc = .cancelled ∨ (s.sw = true ∧ s.gjoin = false) then none else some { s with spc := .cancelled }
+          if s.scan = true ∨ (s.sw = true ∧ s.gjoin = false) then none else some { s with scan := true }
       | _ => none
   | .ret => match s.dpc with
-      | .finishing => if s.spc = .cancelled then some { s with dpc := .returned } else none
+      -- the repaired shutdown joins the signals thread before dsh() goes on to free t[] (repair of F20-LATEINT);
+      -- the pinned source returns as soon as it has asked for the cancellation
+      | .finishing =>
+          if s.scan = true ∧ (s.sw = true → s.spc = .cancelled) then some { s with dpc := .returned } else none
       | _ => none
 
 /-- the local move of a worker: its next program counter; `canceled` = what the unprotected re-read
@@ -360,6 +366,10 @@ def sStep (s : St) : SAct → Option St
   | .exit c => match s.spc with
       | .exiting => if c = 1 then some { s with exited := some 1 } else none
       | _ => none
+  -- deferred cancellation: after pthread_cancel(thread_sig) the thread ends at a cancellation point.  Which calls are
+  -- cancellation points depends on the C library (sigwait is one; the fprintf of a listing may be one, with
+  -- thd_mutex held): the model lets it end anywhere, so every choice is covered
+  | .die => if s.scan = true ∧ s.spc ≠ .off ∧ s.spc ≠ .cancelled then some { s with spc := .cancelled } else none
 
 def eStep (s : St) : EAct → Option St
   | .deliver g => some { s with pend := if g ∈ s.pend then s.pend else s.pend ++ [g] }
@@ -392,7 +402,7 @@ def init (v : Variant) (g sw : Bool) (f n : Nat) (batch : Bool) (now : Nat) : St
   { v := v, f := f, batch := batch, g := g, i := 0, dpc := if 0 < n then .top else .dtop, tc := 0, own := .none,
     thd := .none, sig := false, ws := List.replicate n .idle, ts := List.replicate n .new, spc := .off,
     pend := [], now := now, last := 0, listed := [], fwds := [], ncanc := 0, exited := none,
-    sw := sw, gpc := .off, gcan := false, gjoin := false }
+    sw := sw, gpc := .off, gcan := false, gjoin := false, scan := false }
 
 /-- executions: the labels performed so far (oldest first) and the state reached -/
 inductive Exec (s0 : St) : List Label → St → Prop
@@ -418,7 +428,7 @@ def wActs : List WAct :=
   [.lockT, .time, .unlockT, .connectBegin, .connectEnd true, .connectEnd false, .destroyBegin, .destroyEnd, .lock,
    .signal, .unlock]
 def sActs (s : St) : List SAct :=
-  [.sigwait .int, .sigwait .tstp, .time s.now, .lockT, .unlockT, .lock, .unlock, .stop, .exit 1] ++
+  [.sigwait .int, .sigwait .tstp, .time s.now, .lockT, .unlockT, .lock, .unlock, .stop, .exit 1, .die] ++
   (List.range s.ts.length).map .fwd
 
 def dEnabled (s : St) : Bool := (dActs s).any fun a => (step s (.d a)).isSome
